@@ -399,6 +399,18 @@ fn decode_to_sink<Sink, A>(
         }
         let (result, bytes_read, bytes_written) =
             decoder.decode_to_utf8_without_replacement(&input, &mut out, last);
+        #[cfg(html5ever_verif)]
+        crate::verif::emit(crate::verif::Event::DecodeIter {
+            result: match result {
+                DecoderResult::InputEmpty => 0,
+                DecoderResult::OutputFull => 1,
+                DecoderResult::Malformed(_, _) => 2,
+            },
+            input_len: input.len(),
+            read: bytes_read,
+            written: bytes_written,
+            last,
+        });
         if bytes_written > 0 {
             sink.process(unsafe {
                 out.subtendril(0, bytes_written as u32)
